@@ -783,10 +783,11 @@ pub fn dom_tree_atomic(scenario: &str) -> Outcome {
 // C12 / C14 after DOM edit histories (bounded stand-in material): navigational views agree; keys of attached nodes are
 // non-zero and pairwise distinct
 
-pub const EDIT_SCENARIOS: [&str; 20] = [
+pub const EDIT_SCENARIOS: [&str; 22] = [
     "move_within_parent_before", "move_within_parent_append", "move_between_parents", "remove_then_reinsert",
     "remove_subtree_drop_then_set_attribute", "remove_middle_subtree_drop_then_set_attribute", "replace_child", "append_fragment_like_sequence", "split_text_then_move", "append_new_after_child_with_descendants", "set_attribute_on_element_with_children", "insert_new_before_first_child", "move_forward_within_parent", "move_before_own_next_sibling", "reappend_last_child_with_children", "move_out_of_detached_parent", "views_inside_removed_subtree", "append_child_to_element_with_late_namespace_declaration",
     "append_after_last_descendant_with_late_namespace_declaration", "change_attribute_value_then_append_child",
+    "views_inside_detached_fragment", "views_after_attaching_a_fragment",
 ];
 
 pub fn dom_after_edits(scenario: &str, what: &str) -> Outcome {
@@ -911,6 +912,27 @@ pub fn dom_after_edits(scenario: &str, what: &str) -> Outcome {
                 if what == "views" {
                     let mut bad = vec![];
                     views(&gone, &mut bad);
+                    views(&doc.as_node(), &mut bad);
+                    return format!("disagreements: {:?}", bad);
+                }
+            }
+            "views_inside_detached_fragment" | "views_after_attaching_a_fragment" => {
+                // a subtree built from created nodes (none of them numbered yet): three children and a grandchild
+                let p = doc.create_element("p").unwrap();
+                let k1 = doc.create_element("k1").unwrap();
+                let k2 = doc.create_text_node("k2");
+                let k3 = doc.create_element("k3").unwrap();
+                let g = doc.create_comment("g");
+                p.append_child(k1.as_node()).unwrap();
+                p.append_child(k2.as_node()).unwrap();
+                p.append_child(k3.as_node()).unwrap();
+                k3.append_child(g.as_node()).unwrap();
+                if scenario == "views_after_attaching_a_fragment" {
+                    r.insert_before(p.as_node(), Some(&c)).unwrap();
+                }
+                if what == "views" {
+                    let mut bad = vec![];
+                    views(&p.as_node(), &mut bad);
                     views(&doc.as_node(), &mut bad);
                     return format!("disagreements: {:?}", bad);
                 }
@@ -1041,6 +1063,8 @@ pub fn dom_after_edits(scenario: &str, what: &str) -> Outcome {
             "append_child_to_element_with_late_namespace_declaration" => "a c d",
             "append_after_last_descendant_with_late_namespace_declaration" => "a c d",
             "change_attribute_value_then_append_child" => "a c d",
+            "views_inside_detached_fragment" => "a c d",
+            "views_after_attaching_a_fragment" => "a p c d",
             _ => "a c d #text",
         })
     } else {
